@@ -100,7 +100,8 @@ def run_plan_shared(x, wd):
          "edges": [{"source": e["u"], "target": e["v"], "transfer_data": e["u"] + 2 * e["v"]} for e in x["edges"]]}
     p = os.path.join(wd, "wf_shared_%d.json" % (abs(hash(json.dumps(x, sort_keys=True))) % 10 ** 9))
     with open(p, "w") as f:
-        json.dump({"header": {}, "graph": g}, f)
+        # generator metadata of the workflow file is not the simulator's business
+        json.dump({"header": {"time": True} if x["n"] % 2 == 0 else {"time": "false"}, "graph": g}, f)
 
     class Buf:
         def buffer_storage_summary(self):
@@ -108,7 +109,9 @@ def run_plan_shared(x, wd):
     env = simpy.Environment(initial_time=x["clock"])
     planner = Planner(env, None, BatchPlanning('batch'), None)
     x2 = dict(x, name="zz")
-    recs = [{"x": x, "raised": "", "y": {"tasks": [], "edges": []}}, {"x": x2, "raised": "", "y": {"tasks": [], "edges": []}}]
+    x3 = dict(x, clock=x["clock"] + 5)      # the same observation name planned again, later
+    recs = [{"x": x, "raised": "", "y": {"tasks": [], "edges": []}}, {"x": x2, "raised": "", "y": {"tasks": [], "edges": []}},
+            {"x": x3, "raised": "", "y": {"tasks": [], "edges": []}}]
 
     def view(plan):
         tasks = []
@@ -122,10 +125,13 @@ def run_plan_shared(x, wd):
     try:
         p1 = planner.run(Observation(x["name"], 0, 2, 1, p, 1), Buf(), None)
         p2 = planner.run(Observation("zz", 0, 2, 1, p, 1), Buf(), None)
+        env.run(until=x["clock"] + 5)
+        p3 = planner.run(Observation(x["name"], 0, 2, 1, p, 1), Buf(), None)
+        recs[2]["y"] = view(p3)
         recs[1]["y"] = view(p2)
         recs[0]["y"] = view(p1)
     except Exception as e:  # noqa
-        recs[0]["raised"] = recs[1]["raised"] = type(e).__name__
+        recs[0]["raised"] = recs[1]["raised"] = recs[2]["raised"] = type(e).__name__
     return recs
 
 
@@ -164,11 +170,29 @@ def run_config(x, wd):
     rec = {"x": x, "raised": "", "y": {}}
     try:
         c = Config(p)
+        ys = []
+        for _ in range(2):      # every component of a simulation parses its section from one Config
+            ys.append(_parse_view(c, raw_start, raw_dur))
+        if ys[0] != ys[1]:
+            raise ValueError("second parse of one Config differs")
+        rec["y"] = ys[0]
+    except ValueError as e:
+        # a parsed value that should be a whole number is not: that is a verdict
+        # for TLC (the record does not satisfy ConfigOK), not a harness failure
+        rec["raised"] = str(e)[:60]
+        rec["y"] = {}
+    except Exception as e:  # noqa
+        rec["raised"] = type(e).__name__
+    return rec
+
+
+def _parse_view(c, raw_start, raw_dur):
+    if True:
         machines, sysbw = c.parse_cluster_config()
         arrays, pipelines, observations, max_ingest = c.parse_instrument_config("telescope")
         hot, cold = c.parse_buffer_config()
         o = observations[0]
-        rec["y"] = {
+        return {
             "raw_start": raw_start, "raw_dur": raw_dur,
             "obs": {"start": _as_int(o.est, "start"), "dur": _as_int(o.duration, "duration"),
                     "rate": _as_int(o.ingest_data_rate, "rate"), "demand": int(o.demand)},
@@ -180,14 +204,6 @@ def run_config(x, wd):
             "cold": {"rate": _as_int(cold[0].max_data_rate, "cold rate"), "cap": int(cold[0].total_capacity)},
             "volume": _as_int(o.ingest_data_rate * o.duration, "volume"),
         }
-    except ValueError as e:
-        # a parsed value that should be a whole number is not: that is a verdict
-        # for TLC (the record does not satisfy ConfigOK), not a harness failure
-        rec["raised"] = str(e)[:60]
-        rec["y"] = {}
-    except Exception as e:  # noqa
-        rec["raised"] = type(e).__name__
-    return rec
 
 
 # ------------------------------------------------------------------ C15
